@@ -94,7 +94,7 @@ CLAIMED = {
          "CubicSpline / LinSpline / AkimaSpline / Table on generated grids (knots, ends, between, outside), including sums of data sets and spline fits.",
          "Lean kernel + three standard axioms; translator tr_c12.py (cexpr); Eigen QR external; csg_resample executable covered in interpolation mode; fit mode and least-squares optimality of Fit (KKT theorem in C06) not run.",
          "6/C12"),
- "C04": ("Lean 4 proof (induction over frame lists and block lists, order/field arithmetic over Q) about an executable model of the whole csg_stat pipeline "
+ "C04": ("Lean 4 proof (induction over frame lists and block lists, order/field arithmetic over Q) about an executable model of the whole csg_stat pipeline whose arithmetic (merge / average / correlation recurrences, shell and unit normalisation, pair norm, target de-normalisation) is regenerated from the source on every run "
          "that composes the C01/C02/C03/C13 models + correspondence: every number written by the real csg_stat executable on complete generated inputs is "
          "compared with the model",
          "Theorems: MergeWorker / Average::Process / DoCorrelations recurrences are the frame means for every frame count; the bin of a pair distance is "
